@@ -29,6 +29,8 @@ def cases(tier, seed):
     yield from _lean(tier, seed)
     yield from _stub(tier, seed)
     yield from _loops(tier, seed)
+    yield from _perp(tier, seed)
+    yield from _tapered(tier, seed)
 
 
 LEAN = (0., 0.02, 0.1, 0.3, 0.5, 0.7, 0.9, 1.5, 3., 8., 20.)
@@ -86,6 +88,35 @@ def _loops(tier, seed):
             yield dict(f=f, lam=lam, name='halfloop%g-%g-n%d' % (a1, a2, n), gwires=[half], fwires=[full])
 
 
+def _perp(tier, seed):
+    """wires that are EXACTLY perpendicular to each other with a vertical and a horizontal component in a common plane
+    (90-degree inverted V, diamond loop, sloper pair): their mirror images are not perpendicular to them"""
+    rot, sc, f = geom.variant(seed)
+    lam = geom.C_MININEC / f
+    L = 0.125 * lam                      # binary fraction of the wavelength keeps the direction cosines exact
+    ap = [0., 0., 2.5 * L]
+    pts = [[-L, 0., 1.5 * L], ap, [L, 0., 1.5 * L], [0., 0., 0.5 * L], [L, 0., 0.]]
+    for name, es in (('invV', [(0, 1), (1, 2)]), ('invV-rev', [(1, 0), (1, 2)]), ('diamond', [(3, 0), (0, 1), (1, 2), (2, 3)]),
+                     ('sloper-pair', [(4, 2), (2, 1)])):
+        for r in (2e-4, 1e-3):
+            yield dict(f=f, lam=lam, pts=pts, name='perp-%s-%g' % (name, r), st=[dict(a=a, b=b, n=5, r=r * lam) for a, b in es])
+
+
+def _tapered(tier, seed):
+    """vertical grounded wires with tapered segmentation (one- and two-sided, with a maximum segment length so that an
+    equal-length region follows the short first segments), alone and with a top wire; the mirror image carries the mirrored taper"""
+    rot, sc, f = geom.variant(seed)
+    lam = geom.C_MININEC / f
+    base, top, tip = [0.01 * lam, 0.02 * lam, 0.], [0.01 * lam, 0.02 * lam, 0.24 * lam], [0.13 * lam, 0.08 * lam, 0.26 * lam]
+    for tt, tmax in ((1, 0.03), (3, 0.03), (1, None), (2, 0.03), (3, None)):
+        taper = [tt, None, None if tmax is None else tmax * lam]
+        # a wire joined at the FINE end of a taper is outside the modelling rules (listed C06 finding): top wire only for type 1
+        for es in ([(0, 1)], [(0, 1), (1, 2)]) if tt == 1 else ([(0, 1)],):
+            for n in (8, 11):
+                yield dict(f=f, lam=lam, pts=[base, top, tip], name='taper%d-%s-n%d' % (tt, tmax, n),
+                           st=[dict(a=a, b=b, n=(n if i == 0 else 4), r=2e-4 * lam, **(dict(taper=taper) if i == 0 else {})) for i, (a, b) in enumerate(es)])
+
+
 def _cases(tier, seed, special):
     D = 3 if tier == 'quick' else 4
     P, f, lam = geom.lattice(seed, ground=True, special=special)
@@ -122,26 +153,33 @@ def _cases(tier, seed, special):
             yield dict(f=f, lam=lam, pts=allp, st=[dict(a=a, b=b, n=ns[i], r=rad[i] * lam) for i, (a, b) in enumerate(es)])
 
 
+def _mirror_taper(t):
+    # the image wire is written reversed: a taper towards end 1 becomes one towards end 2
+    return None if t is None else [{1: 2, 2: 1, 3: 3}[t[0]]] + list(t[1:])
+
+
 def ground_case(c):
     pts = [np.array(p) for p in c['pts']]
-    return dict(f=c['f'], env='ideal', wires=[geom.wire(pts[e['a']], pts[e['b']], e['n'], e['r']) for e in c['st']])
+    return dict(f=c['f'], env='ideal', wires=[geom.wire(pts[e['a']], pts[e['b']], e['n'], e['r'], taper=e.get('taper')) for e in c['st']])
 
 
 def pair_case(c):
     pts = [np.array(p) for p in c['pts']]
-    ws = [geom.wire(pts[e['a']], pts[e['b']], e['n'], e['r']) for e in c['st']]
-    ws += [geom.wire(pts[e['b']] * MIR, pts[e['a']] * MIR, e['n'], e['r']) for e in c['st']]
+    ws = [geom.wire(pts[e['a']], pts[e['b']], e['n'], e['r'], taper=e.get('taper')) for e in c['st']]
+    ws += [geom.wire(pts[e['b']] * MIR, pts[e['a']] * MIR, e['n'], e['r'], taper=_mirror_taper(e.get('taper'))) for e in c['st']]
     return dict(f=c['f'], env='free', wires=ws)
 
 
 def evaluate(c):
     gc = ground_case(c) if 'gwires' not in c else dict(f=c['f'], env='ideal', wires=c['gwires'])
-    reason = geom.domain(gc, c['lam'], ground=True) if 'gwires' not in c else None
+    reason = geom.domain(gc, c['lam'], ground=True) if ('gwires' not in c and not any(e.get('taper') for e in c['st'])) else None
     if reason:
         return dict(viol=[], skipped='domain:' + reason, evals=0)
     try:
         g0 = geom.build(gc)
     except ValueError as e:
+        if 'Taper' in str(e):
+            return dict(viol=[], skipped='taper-not-accepted', evals=0)
         return dict(viol=[('REJECTED', str(e))])
     # feed positions from the ground model's pulse table
     pm = geom.pulse_by_point(g0)
